@@ -13,7 +13,8 @@ EXTENDS Integers, Sequences, FiniteSets, FiniteSetsExt, SequencesExt, Rational, 
 
 SpName == << "H2O", "H+", "OH-", "NH4+", "NH3", "H2CO3", "HCO3-", "CO3-2", "Cu+2", "CuNH3+2",
              "Cu(NH3)2+2", "CuOH+", "Cu2(OH)2+2", "HAc", "Ac-",
-             "Ag+", "Cl-", "AgCl(s)", "Mg+2", "Mg(OH)2(s)", "Ca+2", "F-", "CaF2(s)" >>
+             "Ag+", "Cl-", "AgCl(s)", "Mg+2", "Mg(OH)2(s)", "Ca+2", "F-", "CaF2(s)",
+             "CuNH3OH+", "Cu(NH3)3+2" >>
 SpComp == <<
     {<<1, 2>>, <<8, 1>>},                         \*  1 H2O
     {<<0, 1>>, <<1, 1>>},                         \*  2 H+
@@ -37,12 +38,14 @@ SpComp == <<
     {<<1, 2>>, <<8, 2>>, <<12, 1>>},              \* 20 Mg(OH)2(s)
     {<<0, 2>>, <<20, 1>>},                        \* 21 Ca+2
     {<<0, -1>>, <<9, 1>>},                        \* 22 F-
-    {<<9, 2>>, <<20, 1>>} >>                      \* 23 CaF2(s)
+    {<<9, 2>>, <<20, 1>>},                        \* 23 CaF2(s)
+    {<<0, 1>>, <<1, 4>>, <<7, 1>>, <<8, 1>>, <<29, 1>>},   \* 24 CuNH3OH+
+    {<<0, 2>>, <<1, 9>>, <<7, 3>>, <<29, 1>>} >>  \* 25 Cu(NH3)3+2
 NSp == Len(SpName)
 Solids == {18, 20, 23}          \* species in a second phase (phase_idx = 1)
 AllKeys == {0, 1, 6, 7, 8, 9, 12, 17, 20, 29, 47}
 
-(* homogeneous equilibria 1..11, phase-transfer equilibria 12..17 (solid as reactant: 12-14,  *)
+(* homogeneous equilibria 1..11 and 18..27, phase-transfer equilibria 12..17 (solid as reactant: 12-14, *)
 (* the same salts written with the solid as product: 15-17)                                   *)
 RxNu == <<
     {<<1, -1>>, <<2, 1>>, <<3, 1>>},              \*  1 H2O = H+ + OH-
@@ -61,9 +64,22 @@ RxNu == <<
     {<<23, -1>>, <<21, 1>>, <<22, 2>>},           \* 14 CaF2(s) = Ca+2 + 2 F-
     {<<16, -1>>, <<17, -1>>, <<18, 1>>},          \* 15 Ag+ + Cl- = AgCl(s)
     {<<19, -1>>, <<3, -2>>, <<20, 1>>},           \* 16 Mg+2 + 2 OH- = Mg(OH)2(s)
-    {<<21, -1>>, <<22, -2>>, <<23, 1>>} >>        \* 17 Ca+2 + 2 F- = CaF2(s)
+    {<<21, -1>>, <<22, -2>>, <<23, 1>>},          \* 17 Ca+2 + 2 F- = CaF2(s)
+    \* single-equilibrium shapes beyond 1:1:1 (C08, comparison with the bracketing solver):
+    \* coefficients 2 and 3 on either side, three products, two species on both sides
+    {<<11, -1>>, <<9, 1>>, <<5, 2>>},             \* 18 Cu(NH3)2+2 = Cu+2 + 2 NH3
+    {<<13, -1>>, <<9, 2>>, <<3, 2>>},             \* 19 Cu2(OH)2+2 = 2 Cu+2 + 2 OH-
+    {<<24, -1>>, <<9, 1>>, <<5, 1>>, <<3, 1>>},   \* 20 CuNH3OH+ = Cu+2 + NH3 + OH-
+    {<<25, -1>>, <<9, 1>>, <<5, 3>>},             \* 21 Cu(NH3)3+2 = Cu+2 + 3 NH3
+    {<<9, -1>>, <<5, -3>>, <<25, 1>>},            \* 22 Cu+2 + 3 NH3 = Cu(NH3)3+2
+    {<<7, -2>>, <<6, 1>>, <<8, 1>>},              \* 23 2 HCO3- = H2CO3 + CO3-2
+    {<<5, -1>>, <<7, -1>>, <<4, 1>>, <<8, 1>>},   \* 24 NH3 + HCO3- = NH4+ + CO3-2
+    {<<13, -1>>, <<2, -2>>, <<9, 2>>, <<1, 2>>},  \* 25 Cu2(OH)2+2 + 2 H+ = 2 Cu+2 + 2 H2O
+    {<<11, -1>>, <<2, -2>>, <<9, 1>>, <<4, 2>>},  \* 26 Cu(NH3)2+2 + 2 H+ = Cu+2 + 2 NH4+
+    {<<25, -1>>, <<10, 1>>, <<5, 2>>} >>          \* 27 Cu(NH3)3+2 = CuNH3+2 + 2 NH3
 NRx == Len(RxNu)
 HomogRx == 1..11
+ShapeRx == 18..27
 
 ------------------------------------------------------------------------------
 CompAt0(s, k) == LET m == {p \in SpComp[s] : p[1] = k} IN IF m = {} THEN 0 ELSE (CHOOSE p \in m : TRUE)[2]
